@@ -311,6 +311,7 @@ func main() {
 		}
 		for i := 0; i < n; i++ {
 			r := vh.NewRng(a.Seed, "C17", stream, i)
+			g.tight = i%10 < 3 // a fixed 30 % share of every operation's cases has tightly announced operands
 			c := o.gen(r, g)
 			if c == nil {
 				continue
